@@ -20,6 +20,11 @@ structure Cfg where
   onChain : Nat → Nat → Bool
   /-- token-pair `Enabled` flag (static in this model; toggling is a C08 operation) -/
   enabled : Nat → Bool := fun _ => true
+  /-- environment hypothesis, explicit: the external chain cannot send in (deposit) more of a token that originates
+  on fxcore (FX, externally-owned pair) than circulates outside, i.e. what was there initially plus what the bridge
+  executed out minus what already came back.  `false` = no restriction (the theorems that do not need it hold for
+  both values). -/
+  envBound : Bool := false
 
 structure PoolTx where
   id : Nat
@@ -36,7 +41,7 @@ structure Batch where
   nonce : Nat
   g : Nat
   txs : List PoolTx
-  deriving Repr
+  deriving DecidableEq, Repr
 
 structure OutCall where
   nonce : Nat
@@ -46,6 +51,10 @@ structure OutCall where
   fromMsg : Bool
   deriving Repr
 
+/-- Per-chain records.  `created`, `extLast`, `expired` are *ghost* components describing the external bridge contract
+(never read by `step`): every batch ever built, the contract's `state_lastBatchNonces[token]` (set by `submitBatch`,
+one entry PER TOKEN while fxcore allocates batch nonces from ONE counter per chain), and the batches whose external
+timeout height has passed (environment). -/
 structure ChainSt where
   pool : List PoolTx := []
   batches : List Batch := []
@@ -53,6 +62,11 @@ structure ChainSt where
   nextTx : Nat := 1
   nextBatch : Nat := 1
   nextCall : Nat := 1
+  created : List Batch := []
+  extLast : Nat → Nat := fun _ => 0
+  expired : List (Nat × Nat) := []
+  /-- ghost: amount of each token group circulating on the external chain (initial + executed out − deposited) -/
+  ext : Nat → Nat := fun _ => 0
 
 structure State where
   L : Ledger
@@ -67,18 +81,25 @@ inductive Op where
   | send (c g u n fee : Nat)
   /-- precompile `crossChain` with the group's ERC-20 token -/
   | xsend (c g u n fee : Nat)
+  /-- precompile `crossChain` with the zero token address and `msg.value = n + fee` (FX itself) -/
+  | vsend (c g u n fee : Nat)
+  /-- precompile `increaseBridgeFee` with the group's ERC-20 token -/
+  | xincfee (c id u g n : Nat)
   /-- `MsgCancelSendToExternal` / precompile `cancelSendToExternal` -/
   | cancel (c id u : Nat)
   /-- `MsgIncreaseBridgeFee` with a coin of the bridge denomination of `(g, c)` -/
   | incfee (c id u g n : Nat)
-  /-- `BuildOutgoingTxBatch(token, maxElements = 100, minimumFee = 0, baseFee)` -/
-  | batch (c g baseFee : Nat)
+  /-- `MsgRequestBatch{Denom = bridge denomination of (g, c), MinimumFee, BaseFee}` through the message router, signed by
+  a registered bridger (`asOracle`) or by a plain user -/
+  | batch (c g baseFee minFee : Nat) (asOracle : Bool)
   /-- observed `MsgSendToExternalClaim`: `OutgoingTxBatchExecuted` -/
   | executed (c g nonce : Nat)
   /-- batch timed out: `CancelOutgoingTxBatch` -/
   | btimeout (c g nonce : Nat)
   /-- `MsgBridgeCall` (`pre = false`) / precompile `bridgeCall` with ERC-20 tokens (`pre = true`) -/
   | bcout (c u r : Nat) (tokens : List (Nat × Nat)) (pre : Bool)
+  /-- precompile `bridgeCall` with `msg.value = v` (FX, group `gfx`) in addition to ERC-20 tokens -/
+  | vbcout (c gfx u r v : Nat) (tokens : List (Nat × Nat))
   /-- observed `MsgBridgeCallResultClaim` -/
   | bcresult (c nonce : Nat) (success : Bool)
   /-- outgoing bridge call timed out (`cleanupTimeOutBridgeCall`) -/
@@ -92,6 +113,24 @@ inductive Op where
   | convertERC20 (g u r n : Nat)
   | convertDenom (g u r n : Nat) (src dst : Den)
   deriving Repr
+
+/-! ### flows of the precompile entry points that only C04 models (x/crosschain/precompile) -/
+
+/-- the precompile account and the evm module account (`handlerOriginToken`) -/
+abbrev precompileAcc : Addr := .ext 2
+abbrev evmMod : Addr := .ext 3
+
+/-- `msg.value` of a precompile call: the EVM moves the value to the precompile address, `handlerOriginToken` hands it
+back to the sender through the evm module account -/
+def valueIn (g : Nat) (s : Addr) (n : Nat) : List Prim :=
+  [.send (.base g) s precompileAcc n, .send (.base g) precompileAcc evmMod n, .send (.base g) evmMod s n]
+
+/-- precompile `increaseBridgeFee`: the fee (a base coin after `handlerERC20Token`) becomes the chain's bridge
+denomination through the erc20 module's `ConvertDenomToTarget` (escrow in `E`); FX is its own bridge denomination -/
+def feeToBridgeDenom (k : Kind) (g c : Nat) (h : Addr) (n : Nat) : List Prim :=
+  match k with
+  | .fx => []
+  | _ => convertDenom k g h n .base (.chain c)
 
 /-- the contract whose call always reverts (receiver of failing inbound bridge calls) -/
 def badContract : Addr := .ext 0
@@ -136,15 +175,35 @@ def extract {α : Type} (p : α → Bool) : List α → Option (α × List α)
     | some (y, ys) => some (y, x :: ys)
     | none => none
 
-/-- end of every operation: store the chain's records, bump the ghost counters -/
+def tokensValue (g : Nat) (tokens : List (Nat × Nat)) : Nat :=
+  (tokens.map (fun t => if t.1 = g then t.2 else 0)).sum
+
+/-- end of every operation: store the chain's records, bump the ghost counters (deposits observed, withdrawals observed
+as executed, and with them the amount circulating on the external chain) -/
 def finish (s : State) (c : Nat) (cs : ChainSt) (dep wd : List (Nat × Nat)) : State :=
-  let s1 := setChain s c cs
+  let s1 := setChain s c { cs with ext := fun g => cs.ext g + tokensValue g wd - tokensValue g dep }
   { s1 with deposited := bumpAll s1.deposited dep, withdrawn := bumpAll s1.withdrawn wd }
 
+/-- tokens whose bridge side locks / unlocks (they originate on fxcore): FX and externally-owned pairs -/
+def locks (cfg : Cfg) (g : Nat) : Bool :=
+  match cfg.kind g with
+  | some .moduleOwned => false
+  | some _ => true
+  | none => false
+
+/-- the environment can produce this deposit: for every locking token the external chain holds what it sends in -/
+def envOk (cfg : Cfg) (cs : ChainSt) (tokens : List (Nat × Nat)) : Bool :=
+  !cfg.envBound || tokens.all (fun t => !locks cfg t.1 || decide (tokensValue t.1 tokens ≤ cs.ext t.1))
+
 def Op.chain? : Op → Option Nat
-  | .deposit c .. | .send c .. | .xsend c .. | .cancel c .. | .incfee c .. | .batch c .. | .executed c ..
-  | .btimeout c .. | .bcout c .. | .bcresult c .. | .bctimeout c .. | .bcin c .. | .bcinfail c .. => some c
+  | .deposit c .. | .send c .. | .xsend c .. | .vsend c .. | .xincfee c .. | .cancel c .. | .incfee c .. | .batch c .. | .executed c ..
+  | .btimeout c .. | .bcout c .. | .vbcout c .. | .bcresult c .. | .bctimeout c .. | .bcin c .. | .bcinfail c .. => some c
   | _ => none
+
+/-- operations that touch the batch records of their chain -/
+def Op.touchesBatches : Op → Bool
+  | .batch .. | .executed .. | .btimeout .. => true
+  | _ => false
 
 def batchValue (b : Batch) : Nat := (b.txs.map (fun t => t.amount + t.fee)).sum
 
@@ -169,6 +228,195 @@ def okDen (cfg : Cfg) (g : Nat) : Den → Bool
   | .base => true
   | .chain c => decide (c < nChains) && cfg.onChain g c
 
+/-! ### `MsgRequestBatch` → `BuildOutgoingTxBatch`: the statements in source order
+
+The two functions are modelled as *interpreters over their statement lists* (`List RStep`, `List BStep`); the lists
+the model uses (`requestSteps`, `buildSteps`) are obliged to equal the lists regenerated from the Go AST
+(`Gen.C04.requestBatch_steps`, `Gen.C04.buildOutgoingTxBatch_steps`).  `pickUnBatchedTx` *removes* the selected transfers
+from the pool; they are written back (as a batch) only by `StoreBatch`.  Every early exit between the two must be an
+error — only an error makes the message's cache context discard the removal — and the caller must propagate it. -/
+
+inductive BGuard where
+  | maxZero | notProfitable | pickErr | noTx | belowMinFee | zeroTimeout | storeErr | unknown
+  deriving DecidableEq, Repr
+
+/-- how an `if <guard> { return … }` leaves `BuildOutgoingTxBatch`: `return nil, err` or `return nil, nil` -/
+inductive BExit where
+  | err | okNoBatch
+  deriving DecidableEq, Repr
+
+inductive BStep where
+  | guard (g : BGuard) (x : BExit)
+  /-- `selectedTx, err := k.pickUnBatchedTx(…)` -/
+  | pick
+  /-- `nextID := k.autoIncrementID(…)`; `k.StoreBatch(ctx, batch)` -/
+  | store
+  deriving DecidableEq, Repr
+
+/-- result of `BuildOutgoingTxBatch`: `(nil, err)`, `(nil, nil)`, `(batch, nil)` -/
+inductive BOut where
+  | err | nil | built
+  deriving DecidableEq, Repr
+
+structure BArgs where
+  g : Nat
+  baseFee : Nat
+  minFee : Nat
+
+structure BSt where
+  cs : ChainSt
+  /-- the Go variable `selectedTx` -/
+  sel : List PoolTx := []
+  built : Bool := false
+
+/-- `pickUnBatchedTx` selects the transfers of the token whose fee is at least the base fee (pool below
+`OutgoingTxBatchSize`) -/
+def selects (a : BArgs) (t : PoolTx) : Bool := t.g == a.g && decide (a.baseFee ≤ t.fee)
+
+/-- fees of the latest pending batch of the token (`GetLastOutgoingBatchByToken(...).GetFees()`), 0 if there is none -/
+def lastBatchFees (cs : ChainSt) (g : Nat) : Nat :=
+  ((cs.batches.filter (·.g == g)).foldl
+    (fun (acc : Nat × Nat) b => if b.nonce > acc.1 then (b.nonce, totalFees b.txs) else acc) (0, 0)).2
+
+def guardHolds (a : BArgs) (st : BSt) : BGuard → Bool
+  | .maxZero => false            -- `RequestBatch` passes `OutgoingTxBatchSize`
+  | .notProfitable => decide (lastBatchFees st.cs a.g > totalFees (st.cs.pool.filter (selects a)))
+  | .pickErr => false
+  | .noTx => st.sel.isEmpty
+  | .belowMinFee => decide (totalFees st.sel < a.minFee)
+  | .zeroTimeout => false        -- an external block height has been observed (environment)
+  | .storeErr => false           -- at most one batch request per block (environment)
+  | .unknown => false
+
+def runBuild (a : BArgs) : List BStep → BSt → BSt × BOut
+  | [], st => (st, if st.built then .built else .nil)
+  | .guard g x :: r, st =>
+    if guardHolds a st g then (st, match x with | .err => .err | .okNoBatch => .nil) else runBuild a r st
+  | .pick :: r, st =>
+    runBuild a r { st with
+      cs := { st.cs with pool := st.cs.pool.filter (fun t => !selects a t) },
+      sel := st.sel ++ st.cs.pool.filter (selects a) }
+  | .store :: r, st =>
+    let b : Batch := ⟨st.cs.nextBatch, a.g, st.sel⟩
+    runBuild a r { st with
+      cs := { st.cs with batches := b :: st.cs.batches, created := b :: st.cs.created, nextBatch := st.cs.nextBatch + 1 },
+      built := true }
+
+/-- statements of `BuildOutgoingTxBatch` (obliged to equal `Gen.C04.buildOutgoingTxBatch_steps`) -/
+def buildSteps : List BStep :=
+  [.guard .maxZero .err, .guard .notProfitable .err, .pick, .guard .pickErr .err, .guard .noTx .err,
+   .guard .belowMinFee .err, .guard .zeroTimeout .err, .store, .guard .storeErr .err]
+
+inductive RGuard where
+  | badSender | noToken | notOracle | buildErr | nilBatch | unknown
+  deriving DecidableEq, Repr
+
+inductive RExit where
+  | err | okEmpty
+  deriving DecidableEq, Repr
+
+inductive RStep where
+  | guard (g : RGuard) (x : RExit)
+  /-- `batch, err := s.BuildOutgoingTxBatch(…)` -/
+  | build
+  /-- `return &MsgRequestBatchResponse{BatchNonce: batch.BatchNonce}, nil` (dereferences `batch`) -/
+  | respond
+  deriving DecidableEq, Repr
+
+structure RArgs where
+  tokenFound : Bool
+  asOracle : Bool
+  b : BArgs
+
+def rguardHolds (a : RArgs) (o : Option BOut) : RGuard → Bool
+  | .badSender => false
+  | .noToken => !a.tokenFound
+  | .notOracle => !a.asOracle
+  | .buildErr => o == some .err
+  | .nilBatch => o == some .nil
+  | .unknown => false
+
+/-- `MsgServer.RequestBatch`; an `.error` result discards all writes (message-level cache context), an `.ok` result
+commits the chain state as it is at that point -/
+def runRequest (bs : List BStep) (a : RArgs) : List RStep → ChainSt × Option BOut → Except Err ChainSt
+  | [], (cs, _) => .ok cs
+  | .guard g x :: r, (cs, o) =>
+    if rguardHolds a o g then (match x with | .err => .error .invalid | .okEmpty => .ok cs)
+    else runRequest bs a r (cs, o)
+  | .build :: r, (cs, _) =>
+    let res := runBuild a.b bs { cs := cs }
+    runRequest bs a r (res.1.cs, some res.2)
+  | .respond :: _, (cs, o) => if o == some .built then .ok cs else .error .invalid   -- nil dereference: panic
+
+/-- statements of `MsgServer.RequestBatch` (obliged to equal `Gen.C04.requestBatch_steps`) -/
+def requestSteps : List RStep :=
+  [.guard .badSender .err, .guard .noToken .err, .guard .notOracle .err, .build, .guard .buildErr .err, .respond]
+
+/-- order condition on `BuildOutgoingTxBatch`: phase 0 = nothing picked, 1 = picked and not yet stored, 2 = stored.
+While transfers are picked and not stored every exit must be an error; the function must not end in phase 1. -/
+def safeOrder : Nat → List BStep → Bool
+  | ph, [] => ph != 1
+  | ph, .guard _ .err :: r => safeOrder ph r
+  | ph, .guard _ .okNoBatch :: r => ph != 1 && safeOrder ph r
+  | ph, .pick :: r => ph == 0 && safeOrder 1 r
+  | ph, .store :: r => ph == 1 && safeOrder 2 r
+
+/-- order condition on `RequestBatch` (`d`: a failed build may have left partial writes): an error of the build is
+propagated before any successful return -/
+def reqSafe : Bool → List RStep → Bool
+  | d, [] => !d
+  | _, .guard .buildErr .err :: r => reqSafe false r
+  | d, .guard _ .err :: r => reqSafe d r
+  | d, .guard .nilBatch .okEmpty :: r => reqSafe d r
+  | d, .guard _ .okEmpty :: r => !d && reqSafe d r
+  | d, .build :: r => !d && reqSafe true r
+  | _, .respond :: _ => true
+
+/-! ### `OutgoingTxBatchExecuted`: which other batches are cancelled; the external contract's acceptance rule -/
+
+inductive Cmp where
+  | lt | le | gt | ge | eq | ne | unknown
+  deriving DecidableEq, Repr
+
+def Cmp.eval : Cmp → Nat → Nat → Bool
+  | .lt, a, b => decide (a < b)
+  | .le, a, b => decide (a ≤ b)
+  | .gt, a, b => decide (a > b)
+  | .ge, a, b => decide (a ≥ b)
+  | .eq, a, b => decide (a = b)
+  | .ne, a, b => decide (a ≠ b)
+  | .unknown, _, _ => false
+
+/-- the guard of the cancel loop of `OutgoingTxBatchExecuted`:
+`iterBatch.BatchNonce <cmp> batch.BatchNonce [&& iterBatch.TokenContract == tokenContract]` -/
+structure CancelRule where
+  cmp : Cmp
+  sameToken : Bool
+  deriving DecidableEq, Repr
+
+/-- the rule the model uses (obliged to equal `Gen.C04.executedCancelRule`) -/
+def cancelRule : CancelRule := ⟨.lt, true⟩
+
+def cancels (r : CancelRule) (g nonce : Nat) (b : Batch) : Bool :=
+  r.cmp.eval b.nonce nonce && (!r.sameToken || b.g == g)
+
+def isBatch (g nonce : Nat) (b : Batch) : Bool := b.g == g && b.nonce == nonce
+
+/-- `OutgoingTxBatchExecuted(token of g, nonce)` on the chain's records (the batch is known to exist): the cancelled
+batches' transfers go back to the pool, the executed batch is deleted; ghost: the contract's last nonce of that
+token -/
+def executedWith (r : CancelRule) (cs : ChainSt) (g nonce : Nat) : ChainSt :=
+  { cs with
+    pool := (cs.batches.filter (cancels r g nonce)).flatMap (·.txs) ++ cs.pool,
+    batches := cs.batches.filter (fun b => !cancels r g nonce b && !isBatch g nonce b),
+    extLast := fun g' => if g' = g then nonce else cs.extLast g' }
+
+/-- the bridge contract's `submitBatch` still accepts the batch: it was signed (built) on fxcore,
+`state_lastBatchNonces[token] <cmp> nonce` (`cmp` = `<`, regenerated from `FxBridgeLogic.sol`), and its timeout height has
+not passed -/
+def extAcceptsWith (cmp : Cmp) (cs : ChainSt) (b : Batch) : Prop :=
+  b ∈ cs.created ∧ cmp.eval (cs.extLast b.g) b.nonce = true ∧ (b.g, b.nonce) ∉ cs.expired
+
 def refundCall (cfg : Cfg) (s : State) (c : Nat) (call : OutCall) (cs' : ChainSt) : Except Err State := do
   let fl1 ← tokensFlow cfg c call.tokens (fun k g n => bridgeCallRefundCoin k g c (U call.refund) n)
   let fl2 ← if call.fromMsg then pure [] else refundToEvmFlow cfg call.refund call.tokens
@@ -178,6 +426,7 @@ def refundCall (cfg : Cfg) (s : State) (c : Nat) (call : OutCall) (cs' : ChainSt
 def stepCore (cfg : Cfg) (s : State) : Op → Except Err State
   | .deposit c g u n toErc => do
     let some k := bridged cfg g c | .error .notFound
+    if !envOk cfg (s.chains c) [(g, n)] then .error .invalid else
     let fl1 := bridgeTokenToBaseCoin k g c (U u) n
     let fl ← if toErc then
         (match pairOk cfg g with
@@ -201,6 +450,23 @@ def stepCore (cfg : Cfg) (s : State) : Op → Except Err State
     let cs := s.chains c
     let s1 ← run s (precompileTokenIn kp g (U u) (n + fee) ++ baseCoinToBridgeToken k g c (U u) (n + fee))
     pure (finish s1 c { cs with pool := ⟨cs.nextTx, u, g, n, fee, true⟩ :: cs.pool, nextTx := cs.nextTx + 1 } [] [])
+  | .vsend c g u n fee => do
+    if n = 0 then .error .invalid else
+    -- the zero token address stands for the origin token: only FX travels as `msg.value`
+    if cfg.kind g ≠ some .fx then .error .notFound else
+    let some k := bridged cfg g c | .error .notFound
+    let cs := s.chains c
+    let s1 ← run s (valueIn g (U u) (n + fee) ++ baseCoinToBridgeToken k g c (U u) (n + fee))
+    pure (finish s1 c { cs with pool := ⟨cs.nextTx, u, g, n, fee, false⟩ :: cs.pool, nextTx := cs.nextTx + 1 } [] [])
+  | .xincfee c id u g n => do
+    if n = 0 then .error .invalid else
+    let some kp := cfg.kind g | .error .notFound
+    let cs := s.chains c
+    let some (tx, rest) := extract (·.id == id) cs.pool | .error .notFound
+    let some k := bridged cfg g c | .error .notFound
+    if tx.g ≠ g then .error .invalid else
+    let s1 ← run s (precompileTokenIn kp g (U u) n ++ feeToBridgeDenom k g c (U u) n ++ addBridgeFee k g c (U u) n)
+    pure (finish s1 c { cs with pool := { tx with fee := tx.fee + n } :: rest } [] [])
   | .cancel c id u => do
     let cs := s.chains c
     let some (tx, rest) := extract (·.id == id) cs.pool | .error .notFound
@@ -223,34 +489,25 @@ def stepCore (cfg : Cfg) (s : State) : Op → Except Err State
     if tx.g ≠ g then .error .invalid else
     let s1 ← run s (addBridgeFee k g c (U u) n)
     pure (finish s1 c { cs with pool := { tx with fee := tx.fee + n } :: rest } [] [])
-  | .batch c g baseFee => do
-    let some _ := bridged cfg g c | .error .notFound
-    let cs := s.chains c
-    let sel := cs.pool.filter (fun t => t.g == g && decide (baseFee ≤ t.fee))
-    -- "new batch would not be more profitable": the latest batch of this token carries more fees
-    let lastFees := ((cs.batches.filter (·.g == g)).foldl
-      (fun (acc : Nat × Nat) b => if b.nonce > acc.1 then (b.nonce, totalFees b.txs) else acc) (0, 0)).2
-    if lastFees > totalFees sel then .error .invalid else
-    if sel.isEmpty then .error .invalid else
-    pure (finish s c { cs with
-      pool := cs.pool.filter (fun t => !(t.g == g && decide (baseFee ≤ t.fee))),
-      batches := ⟨cs.nextBatch, g, sel⟩ :: cs.batches, nextBatch := cs.nextBatch + 1 } [] [])
+  | .batch c g baseFee minFee asOracle => do
+    -- `MsgRequestBatch.ValidateBasic` (message router): minimum fee positive
+    if minFee = 0 then .error .invalid else
+    let cs ← runRequest buildSteps ⟨(bridged cfg g c).isSome, asOracle, ⟨g, baseFee, minFee⟩⟩ requestSteps (s.chains c, none)
+    pure (finish s c cs [] [])
   | .executed c g nonce => do
     let cs := s.chains c
-    let exec := cs.batches.filter (fun b => b.g == g && b.nonce == nonce)
+    let exec := cs.batches.filter (isBatch g nonce)
     if exec.isEmpty then .error .notFound else
-    let older := cs.batches.filter (fun b => b.g == g && decide (b.nonce < nonce))
-    pure (finish s c { cs with
-      pool := older.flatMap (·.txs) ++ cs.pool,
-      batches := cs.batches.filter (fun b => !(b.g == g && decide (b.nonce ≤ nonce))) }
+    pure (finish s c (executedWith cancelRule cs g nonce)
       [] (exec.flatMap (fun b => b.txs.map (fun t => (t.g, t.amount + t.fee)))))
   | .btimeout c g nonce => do
     let cs := s.chains c
-    let sel := cs.batches.filter (fun b => b.g == g && b.nonce == nonce)
+    let sel := cs.batches.filter (isBatch g nonce)
     if sel.isEmpty then .error .notFound else
     pure (finish s c { cs with
       pool := sel.flatMap (·.txs) ++ cs.pool,
-      batches := cs.batches.filter (fun b => !(b.g == g && b.nonce == nonce)) } [] [])
+      batches := cs.batches.filter (fun b => !isBatch g nonce b),
+      expired := (g, nonce) :: cs.expired } [] [])
   | .bcout c u r tokens pre => do
     let cs := s.chains c
     let flIn ← if pre then pairsFlow cfg tokens (fun k g n => convertERC20 k g (U u) (U u) n) else pure []
@@ -258,6 +515,16 @@ def stepCore (cfg : Cfg) (s : State) : Op → Except Err State
     let s1 ← run s (flIn ++ flOut)
     pure (finish s1 c { cs with
       calls := ⟨cs.nextCall, u, r, tokens, !pre⟩ :: cs.calls, nextCall := cs.nextCall + 1 } [] [])
+  | .vbcout c gfx u r v tokens => do
+    -- `value.Cmp(0) == 1`: the origin coin is prepended to the converted tokens
+    if v = 0 then .error .invalid else
+    if cfg.kind gfx ≠ some .fx then .error .notFound else
+    let cs := s.chains c
+    let flIn ← pairsFlow cfg tokens (fun k g n => convertERC20 k g (U u) (U u) n)
+    let flOut ← tokensFlow cfg c ((gfx, v) :: tokens) (fun k g n => baseCoinToBridgeToken k g c (U u) n)
+    let s1 ← run s (valueIn gfx (U u) v ++ (flIn ++ flOut))
+    pure (finish s1 c { cs with
+      calls := ⟨cs.nextCall, u, r, (gfx, v) :: tokens, false⟩ :: cs.calls, nextCall := cs.nextCall + 1 } [] [])
   | .bcresult c nonce success => do
     let cs := s.chains c
     let some (call, rest) := extract (·.nonce == nonce) cs.calls | .error .notFound
@@ -269,12 +536,14 @@ def stepCore (cfg : Cfg) (s : State) : Op → Except Err State
     let some (call, rest) := extract (·.nonce == nonce) cs.calls | .error .notFound
     refundCall cfg s c call { cs with calls := rest }
   | .bcin c to tokens => do
+    if !envOk cfg (s.chains c) tokens then .error .invalid else
     let fl1 ← tokensFlow cfg c tokens (fun k g n => bridgeTokenToBaseCoin k g c (U to) n)
     let fl2 ← pairsFlow cfg tokens (fun k g n => convertCoin k g (U to) (U to) n)
     let s1 ← run s (fl1 ++ fl2)
     pure (finish s1 c (s1.chains c) tokens [])
   | .bcinfail c r tokens => do
     let cs := s.chains c
+    if !envOk cfg cs tokens then .error .invalid else
     -- credit to the callee outside the cache context; the EVM part fails and is discarded; the credited coins are
     -- handed to the refund address (`SendCoins(receiver, refundAddr, baseCoins)`), and the refund is an outgoing bridge
     -- call built from the refund address' coins
@@ -300,6 +569,127 @@ def stepCore (cfg : Cfg) (s : State) : Op → Except Err State
       (if u = r then [] else [.send (dst.asset g) (U u) E n, .send (dst.asset g) E (U r) n])
     run s fl
 
+/-- flow of the refund of an outgoing bridge call -/
+def refundFlow (cfg : Cfg) (c : Nat) (call : OutCall) : Except Err (List Prim) := do
+  let fl1 ← tokensFlow cfg c call.tokens (fun k g n => bridgeCallRefundCoin k g c (U call.refund) n)
+  let fl2 ← if call.fromMsg then pure [] else refundToEvmFlow cfg call.refund call.tokens
+  pure (fl1 ++ fl2)
+
+/-- **the ledger flow of an operation**: the list of bank / ERC-20 primitives a successful `stepCore cfg s op` runs on
+the ledger (`Proofs.C04.stepCore_flow`); operations that only touch records have the empty flow.  Statements about what
+an operation does to balances are statements about this list. -/
+def opFlow (cfg : Cfg) (s : State) : Op → Except Err (List Prim)
+  | .deposit c g u n toErc => do
+    let some k := bridged cfg g c | .error .notFound
+    let fl1 := bridgeTokenToBaseCoin k g c (U u) n
+    if toErc then
+      (match pairOk cfg g with
+       | some _ => pure (fl1 ++ convertCoin k g (U u) (U u) n)
+       | none => .error .disabled)
+    else pure fl1
+  | .send c g u n fee => do
+    let some k := bridged cfg g c | .error .notFound
+    pure (baseCoinToBridgeToken k g c (U u) (n + fee))
+  | .xsend c g u n fee => do
+    let some kp := cfg.kind g | .error .notFound
+    let some k := bridged cfg g c | .error .notFound
+    pure (precompileTokenIn kp g (U u) (n + fee) ++ baseCoinToBridgeToken k g c (U u) (n + fee))
+  | .vsend c g u n fee => do
+    let some k := bridged cfg g c | .error .notFound
+    pure (valueIn g (U u) (n + fee) ++ baseCoinToBridgeToken k g c (U u) (n + fee))
+  | .xincfee c _ u g n => do
+    let some kp := cfg.kind g | .error .notFound
+    let some k := bridged cfg g c | .error .notFound
+    pure (precompileTokenIn kp g (U u) n ++ feeToBridgeDenom k g c (U u) n ++ addBridgeFee k g c (U u) n)
+  | .cancel c id u => do
+    let some (tx, _) := extract (·.id == id) (s.chains c).pool | .error .notFound
+    let some k := bridged cfg tx.g c | .error .notFound
+    let tot := tx.amount + tx.fee
+    let fl1 := bridgeTokenToBaseCoin k tx.g c (U u) tot
+    if tx.relation then
+      (match pairOk cfg tx.g with
+       | some _ => pure (fl1 ++ convertCoin k tx.g (U u) (U u) tot)
+       | none => .error .disabled)
+    else pure fl1
+  | .incfee c _ u g n => do
+    let some k := bridged cfg g c | .error .notFound
+    pure (addBridgeFee k g c (U u) n)
+  | .batch .. => pure []
+  | .executed .. => pure []
+  | .btimeout .. => pure []
+  | .bcout c u _ tokens pre => do
+    let flIn ← if pre then pairsFlow cfg tokens (fun k g n => convertERC20 k g (U u) (U u) n) else pure []
+    let flOut ← tokensFlow cfg c tokens (fun k g n => baseCoinToBridgeToken k g c (U u) n)
+    pure (flIn ++ flOut)
+  | .vbcout c gfx u _ v tokens => do
+    let flIn ← pairsFlow cfg tokens (fun k g n => convertERC20 k g (U u) (U u) n)
+    let flOut ← tokensFlow cfg c ((gfx, v) :: tokens) (fun k g n => baseCoinToBridgeToken k g c (U u) n)
+    pure (valueIn gfx (U u) v ++ (flIn ++ flOut))
+  | .bcresult c nonce success => do
+    let some (call, _) := extract (·.nonce == nonce) (s.chains c).calls | .error .notFound
+    if success then pure [] else refundFlow cfg c call
+  | .bctimeout c nonce => do
+    let some (call, _) := extract (·.nonce == nonce) (s.chains c).calls | .error .notFound
+    refundFlow cfg c call
+  | .bcin c to tokens => do
+    let fl1 ← tokensFlow cfg c tokens (fun k g n => bridgeTokenToBaseCoin k g c (U to) n)
+    let fl2 ← pairsFlow cfg tokens (fun k g n => convertCoin k g (U to) (U to) n)
+    pure (fl1 ++ fl2)
+  | .bcinfail c r tokens => do
+    let fl1 ← tokensFlow cfg c tokens (fun k g n =>
+      bridgeTokenToBaseCoin k g c badContract n ++ [.send (.base g) badContract (U r) n])
+    let fl2 ← tokensFlow cfg c tokens (fun k g n => baseCoinToBridgeToken k g c (U r) n)
+    pure (fl1 ++ fl2)
+  | .convertCoin g u r n => do
+    let some k := pairOk cfg g | .error .disabled
+    pure (convertCoin k g (U u) (U r) n)
+  | .convertERC20 g u r n => do
+    let some k := pairOk cfg g | .error .disabled
+    pure (convertERC20 k g (U u) (U r) n)
+  | .convertDenom g u r n src dst => do
+    let some k := cfg.kind g | .error .notFound
+    let dst := if okDen cfg g dst then dst else .base
+    pure (convertDenom k g (U u) n src dst ++
+      (if u = r then [] else [.send (dst.asset g) (U u) E n, .send (dst.asset g) E (U r) n]))
+
+/-- **what an operation says it moves**: the change of the holdings of account `x` (a user `U u`, a contract, …) in token
+group `g'` (base coin, bridge denominations and ERC-20 together) that the operation states, read in the pre-state — the sender of a transfer pays
+amount + fee, a cancel / refund gives back exactly what the record holds, a fee increase costs the added fee, a
+conversion moves the amount from sender to receiver, building / executing / timing out a batch moves nothing -/
+def stated (s : State) (op : Op) (x : Addr) (g' : Nat) : Int :=
+  let one (g u n : Nat) : Int := if g = g' ∧ U u = x then (n : Int) else 0
+  let many (u : Nat) (ts : List (Nat × Nat)) : Int := if U u = x then (tokensValue g' ts : Int) else 0
+  match op with
+  | .deposit _ g u n _ => one g u n
+  | .send _ g u n fee => - one g u (n + fee)
+  | .xsend _ g u n fee => - one g u (n + fee)
+  | .vsend _ g u n fee => - one g u (n + fee)
+  | .incfee _ _ u g n => - one g u n
+  | .xincfee _ _ u g n => - one g u n
+  | .cancel c id u =>
+    match extract (·.id == id) (s.chains c).pool with
+    | some (tx, _) => one tx.g u (tx.amount + tx.fee)
+    | none => 0
+  | .batch .. => 0
+  | .executed .. => 0
+  | .btimeout .. => 0
+  | .bcout _ u _ ts _ => - many u ts
+  | .vbcout _ gfx u _ v ts => - many u ((gfx, v) :: ts)
+  | .bcresult c nonce success =>
+    if success then 0 else
+    match extract (·.nonce == nonce) (s.chains c).calls with
+    | some (call, _) => many call.refund call.tokens
+    | none => 0
+  | .bctimeout c nonce =>
+    match extract (·.nonce == nonce) (s.chains c).calls with
+    | some (call, _) => many call.refund call.tokens
+    | none => 0
+  | .bcin _ to ts => many to ts
+  | .bcinfail .. => 0
+  | .convertCoin g u r n => one g r n - one g u n
+  | .convertERC20 g u r n => one g r n - one g u n
+  | .convertDenom g u r n _ _ => one g r n - one g u n
+
 /-- operations on a chain outside `0 … nChains-1` are rejected (no such route) -/
 def step (cfg : Cfg) (s : State) (op : Op) : Except Err State :=
   match op.chain? with
@@ -319,9 +709,6 @@ def runOps (cfg : Cfg) (s : State) (ops : List Op) : State := ops.foldl (stepT c
 def poolValue (g : Nat) (txs : List PoolTx) : Nat :=
   (txs.map (fun t => if t.g = g then t.amount + t.fee else 0)).sum
 
-def tokensValue (g : Nat) (tokens : List (Nat × Nat)) : Nat :=
-  (tokens.map (fun t => if t.1 = g then t.2 else 0)).sum
-
 def chainInFlight (g : Nat) (cs : ChainSt) : Nat :=
   poolValue g cs.pool + (cs.batches.map (fun b => poolValue g b.txs)).sum
     + (cs.calls.map (fun cl => tokensValue g cl.tokens)).sum
@@ -335,6 +722,9 @@ def assets (g : Nat) : List Asset := [.base g, .bridge g 0, .bridge g 1, .bridge
 /-- accounts that are not holders: the crosschain module accounts, the erc20 module account, the WFX contract -/
 def modules : List Addr := [.chainMod 0, .chainMod 1, .chainMod 2, .erc20Mod, .wfx]
 
-def init (L : Ledger) : State := ⟨L, fun _ => {}, fun _ => 0, fun _ => 0⟩
+/-- initial state: ledger `L`, no records, `e0 c g` of group `g` circulating on external chain `c` -/
+def initE (L : Ledger) (e0 : Nat → Nat → Nat) : State := ⟨L, fun c => { ext := e0 c }, fun _ => 0, fun _ => 0⟩
+
+def init (L : Ledger) : State := initE L (fun _ _ => 0)
 
 end FxVerif.Model.C04
